@@ -238,7 +238,12 @@ def search(spec):
                 "schema.list([schema.int, ...])", "schema.list([..., schema.int])", "schema.list([..., schema.int, ...])", "schema.list([schema.int, schema.str])",
                 "schema.list([])", "schema.list", "schema.any(schema.int, schema.list(schema.str))", "schema.alias('n', schema.list(schema.int).len(1))"]
         lval = ["[None, 1.5, b'x', object()]", "[]", "[1]", "[1, 2]", "[1, 'x']", "['x']", "['x', 1]", "[1, 2, 3]", "1", "'x'", "['a', 'b']"]
-        for es, ev_ in list(itertools.product(dsch, dval)) + list(itertools.product(lsch, lval)):
+        # wide / long values (anything that prints over several lines if pretty-printed), alone and nested
+        wide = ["tuple(range(40))", "list(range(60))", "'word ' * 40", "set(range(40))", "{str(i): i for i in range(30)}",
+                "bytearray(b'x' * 120)", "{'id': tuple(range(40))}", "[1, tuple(range(40))]", "{'id': 1, 'tags': 'word ' * 40}"]
+        wsch = ["schema.int", "schema.str", "schema.none", "schema.dict({'id': schema.int, 'tags': schema.list(schema.str)})",
+                "schema.list(schema.int)", "schema.list([schema.int, schema.int])", "schema.uuid4", "schema.bytes"]
+        for es, ev_ in list(itertools.product(dsch, dval)) + list(itertools.product(lsch, lval)) + list(itertools.product(wsch, wide)):
             hit = run({"schema": {"k": "expr", "src": es}, "value": {"k": "expr", "src": ev_}, "path": {"k": "nil"}}, meta)
             if hit:
                 return hit, n
@@ -269,7 +274,14 @@ def search(spec):
                "schema.list([schema.int, ...]).len(1, 3)", "schema.list([..., schema.int]).len(2)", "schema.list([..., schema.int, ...]).len(1, ...)",
                "schema.list(schema.int).len(..., 4)", "schema.list(schema.list([schema.int, schema.str]).len(2))", "schema.dict({})",
                "schema.dict({...: ...})", "schema.any(schema.int, schema.any(schema.str, schema.none))", "schema.int | schema.str | schema.none",
-               "schema.list([schema.int | schema.none, ...])"]
+               "schema.list([schema.int | schema.none, ...])",
+               # unions combined with unions (every way of building one must leave the alternatives flat)
+               "(schema.int | schema.float) | (schema.none | schema.str)", "schema.int | schema.float | (schema.none | schema.str)",
+               "schema.int | (schema.float | schema.none)", "schema.any(schema.int, schema.float) | schema.any(schema.none, schema.str)",
+               "schema.any | schema.int", "schema.int | schema.any", "(schema.any | schema.int) | schema.str",
+               "schema.list([(schema.int | schema.float) | (schema.none | schema.str)])",
+               "schema.dict({'k': (schema.int | schema.float) | (schema.none | schema.str)})",
+               "schema.any(schema.int, schema.str) % 1", "schema.list(schema.int | schema.str) % [1, 'a']"]
         refs = [".len(2)", ".len(1, ...)", ".len(..., 5)", ".len(1, 5)", ".alphabet('ab')", ".contains('a')", ".regex('a+')", ".regex('^ab$')"]
         for base in ("schema.str", "schema.str('ab')"):
             for k in (1, 2, 3):
@@ -455,6 +467,39 @@ def search(spec):
                     return (inputs, {"law": None}, bad), n
             except Exception:
                 continue
+        return None, n
+    if oracle in ("C10", "C11") and "Schema." not in q:
+        # call chains as text: receivers whose printed form is unusual (error messages print the receiver: braces, percent
+        # signs, tuple keys, nested containers), refinements that are refused, in every order
+        str_bases = ["schema.str('ab')", "schema.str('a{}b')", "schema.str('/users/{id}')", "schema.str('100%d')", "schema.str",
+                     "schema.str('ab{}')"]
+        str_refs = [".len(..., 1)", ".len(5, ...)", ".len(2)", ".alphabet('ab{}')", ".contains('{id}')", ".contains('b')", ".regex('a')",
+                    ".alphabet('%sab')"]
+        list_bases = ["schema.list([schema.dict({(0, 1): schema.int})])", "schema.list([schema.dict({'id': schema.int})])",
+                      "schema.list([schema.str('{0}'), ...])", "schema.list(schema.dict({(0, 1): schema.int, optional((2,)): schema.str}))",
+                      "schema.list([schema.dict({(): schema.int, ...: ...}), schema.any(schema.dict({('x', 'y'): schema.int}), schema.none)])"]
+        list_refs = [".len(2)", ".len(..., 0)", ".len(3, ...)", ".len(-1)", ".len(0, 0)", ".len(1)", "([])", "(schema.int)"]
+        other = [("schema.dict({(0, 1): schema.int})", ["({})"]), ("schema.dict({optional((0, 1)): schema.int, 'id': schema.int})", ["({'a': schema.int})"]),
+                 ("schema.any(schema.dict({(0, 1): schema.int}), schema.none)", ["(schema.int)"]),
+                 ("schema.int", ["(schema.dict({(0, 1): schema.int}))"]), ("schema.str", [".len(schema.dict({(0, 1): schema.int}))"]),
+                 ("schema.int(5)", [".min(7)", ".max(3)"]), ("schema.float(1.5)", [".min(2.0)", ".precision(0)"]),
+                 ("schema.bytes(b'{}')", ["(b'x')"]), ("schema.list(schema.str('{}')).len(1, 3)", [".len(2)"])]
+        cases = []
+        for b_ in str_bases:
+            for k_ in (1, 2):
+                for combo in itertools.combinations(str_refs, k_):
+                    cases.append((b_, list(combo)))
+        for b_ in list_bases:
+            for k_ in (1, 2):
+                for combo in itertools.combinations(list_refs, k_):
+                    cases.append((b_, list(combo)))
+        cases += other
+        for b_, refs_ in cases:
+            if n >= MAX_CASES:
+                return None, n
+            hit = run({"base": {"k": "expr", "src": b_}, "refs": [{"k": "expr", "src": r_} for r_ in refs_]}, {})
+            if hit:
+                return hit, n
         return None, n
     if oracle in ("C10", "C11") and "Schema." in q:
         cls, method = q.split(".", 1)
